@@ -32,7 +32,7 @@ BOUNDS = {
              'history in a pristine process (fork server) against solo outcomes from pristine processes; closure '
              'search over heap fingerprints to a fixpoint (cap depth 5); repetition ladder 1,2,4,...,64 per formula for live '
              'traceback/frame counts; host-list immutability for every documented function x arity <= 2 x list-valued '
-             'argument positions + operator paths; clock: 26 date texts x 14 formulas x 2 deliveries under 4 clocks',
+             'argument positions + operator paths; clock: 39 date texts x 14 formulas x 2 deliveries under 4 clocks',
     'thorough': 'histories of length <= 3 (19 683 x 18 probes x 2 debug settings); closure cap depth 8; immutability at arity 3',
 }
 ASSUMPTIONS = ['NOW/TODAY/RAND/RANDBETWEEN are evaluated under a seam that fixes clock and random source (attributes '
@@ -894,7 +894,8 @@ CLOCK_TEXTS = {
     'full': ['2020-03-05', '5 March 2020', '3/5/2020 10:00', '2020-03-05T10:04:11', '29 Feb 2024', '1999-12-31 23:59:59'],
     'no-day': ['March 2020', '2020-03', 'Feb 2023', 'April 2021', '2019-11', 'Sep 1999 10:30', 'Jan 2021', '2024-01', 'January 2025', 'Jan 2024 08:00'],
     'time-only': ['10:04:11', '10:04', '12:00 PM', '00:00', '23:59:59', '1:30 am'],
-    'no-year': ['Jan 5', '5 March', '31 Dec 10:00', 'March'],
+    'no-year': ['Jan 5', '5 March', '31 Dec 10:00', 'March', '29 Feb', 'Monday'],
+    'two-digit-year': ['1/2/76', '1/2/71', '5 March 25', '12/31/99 23:59', '1/2/30', '1/2/29', '3/4/00'],
 }
 CLOCK_FORMS = ['DATEVALUE(xt)', 'xt+0', 'DAY(xt)&"/"&MONTH(xt)&"/"&YEAR(xt)&" "&HOUR(xt)&":"&MINUTE(xt)&":"&SECOND(xt)', 'WEEKDAY(xt)', 'xt-1',
                'DAYS(xt,"1990-01-01")', 'EDATE(xt,1)', 'IF(xt>DATE(2020,1,1),"after","before")', 'DATEDIF("1950-01-01",xt,"d")', 'N(xt+1)',
@@ -904,10 +905,11 @@ CLOCK_FORMS = ['DATEVALUE(xt)', 'xt+0', 'DAY(xt)&"/"&MONTH(xt)&"/"&YEAR(xt)&" "&
 class Clock(Sub):
     name = 'c02.clock'
     rule = ('the clock of the host is an environment answer owned by the harness (the `datetime` module as hotxlfp\'s modules and the '
-            'date parser see it): 26 texts that spell a date-time completely, without a day (also the first month of the year the clock says), or as a time of day only x 14 formulas '
+            'date parser see it): 39 texts that spell a date-time completely, without a day (also the first month of the year the clock says), or as a time of day only x 14 formulas '
             'without NOW / TODAY (text as variable and as literal) give the same outcome under 4 clocks (mid-month, 29 February '
-            '23:59:58, 31 December, 31 July); text without a year may be read in the current year (as a sheet does) and must agree '
-            'under the two clocks of one year; NOW() itself must follow the clock, else the seam is void; non-trivial = all')
+            '23:59:58, 31 December, 31 July), and so do text without a year and text with a two-digit year (the date parser is put '
+            'into the year of the clock, as if the process had been started then); NOW() itself must follow the clock, else the '
+            'seam is void; non-trivial = all')
     min_cases = 20
     min_nontrivial = 20
     min_classes = 3
@@ -940,7 +942,7 @@ class Clock(Sub):
                     seen.setdefault(f, []).append(o)
         for f in CLOCK_FORMS:
             outs = seen[f]
-            pairs = [(1, 3)] if kind == 'no-year' else [(0, 1), (0, 2), (0, 3)]
+            pairs = [(0, 1), (0, 2), (0, 3)]
             for a, b in pairs:
                 if outs[a] != outs[b]:
                     return fail('%s with xt = %r (%s) gives %r when the clock of the host says %s and %r when it says %s: the outcome of a '
